@@ -334,6 +334,13 @@ func c14Execute(c c14Case, choices []int) *c14Result {
 		}
 		s.step(th)
 		res.Steps++
+		if isRecv(th) && before != th.point {
+			hmu.Lock()
+			if inSend[thTopic[th]()] > 0 {
+				res.Overlap = true
+			}
+			hmu.Unlock()
+		}
 		// window bookkeeping (for the statistics and the generator switch)
 		if isRecv(th) {
 			tp := thTopic[th]()
